@@ -25,6 +25,7 @@ PROP = "C17"
 DECIDING = ["slices-tile-columns", "getitem-is-slice", "views-agree", "labels-unique-and-count", "rows-aligned",
             "printing-reports-shape"]
 CTX = {"hostile": False}
+LAST = {}
 
 
 def spec(tier):
@@ -214,6 +215,9 @@ def judge(case, m):
         df["y"] = np.nan
     elif case.get("nan_rows") and len(df) > 4:
         df.loc[df.index[rng.choice(len(df), size=2, replace=False)], "x"] = np.nan
+        if rng.random() < 0.6:  # repeated index labels: rows are positions, not labels
+            lab = np.repeat(np.arange((len(df) + 1) // 2), 2)[: len(df)]
+            df.index = pd.Index(lab)
     ns = D.namespace(meta)
     formulae.config["EVAL_UNSEEN_CATEGORIES"] = "error"
     try:
@@ -221,6 +225,31 @@ def judge(case, m):
     except Exception as e:
         m.note("design-raised:" + type(e).__name__)
         return
+    # one row per RETAINED observation: rows that are complete in the variables the formula uses
+    used_vars = set()
+    try:
+        for t in case["terms"] + [g["factor"] for g in case.get("group", [])] + [g["effect"] for g in case.get("group", []) if g["effect"] != "1"]:
+            for a in t:
+                used_vars.update(D.atom(a, meta).vars)
+        resp = case.get("resp")
+        for c in df.columns:
+            if resp and (resp == c or resp.startswith(c + "[") or f"({c}" in resp or f", {c}" in resp or f"`{c}`" in resp):
+                used_vars.add(c)
+        retained = int(df[sorted(v for v in used_vars if v in df.columns)].notna().all(axis=1).sum()) if used_vars else len(df)
+        m.ev("rows-aligned")
+        for kind, part in (("response", dm.response), ("common", dm.common), ("group", dm.group)):
+            if part is not None and np.asarray(part.design_matrix).ndim and np.asarray(part.design_matrix).shape[0] != retained:
+                m.violation("rows-aligned", f"{kind}: {np.asarray(part.design_matrix).shape[0]} rows, but {retained} observations are complete "
+                            f"in the used variables {sorted(used_vars)}", key="rows:retained")
+                break
+    except KeyError:
+        pass
+    # an earlier design built from the same formula text must still be consistent now
+    prev = LAST.pop("design", None)
+    LAST["design"] = (dm, text)
+    if prev is not None and prev[1] == text:
+        m.cls("earlier-design-rechecked")
+        check_design(prev[0], m)
     # chain of evaluations; unseen groups / levels in some of them
     if len(df) == 0 or case.get("nan_rows") == "all":
         m.cls("zero-row-design")
@@ -246,6 +275,18 @@ def judge(case, m):
                 kept.append((kind, part.evaluate_new_data(new), len(new)))
             except Exception as e:
                 m.note("newdata-raised:" + type(e).__name__)
+        # a derived matrix is itself a matrix object: evaluating new data FROM it (here: the training-like frame,
+        # without unseen levels) must give a consistent object again
+        if kept and step % 2 == 1:
+            kind0, obj0, _ = kept[-1]
+            plain = df.iloc[rng.integers(0, len(df), size=3)].reset_index(drop=True)
+            plain["x"] = plain["x"].fillna(0.0)
+            try:
+                formulae.config["EVAL_UNSEEN_CATEGORIES"] = "error"
+                kept.append((kind0, obj0.evaluate_new_data(plain), len(plain)))
+                m.cls("evaluated-from-derived")
+            except Exception as e:
+                m.note("derived-newdata-raised:" + type(e).__name__)
         # the original matrices and every earlier result must still be consistent
         with_guard = core.mon()
         check_design(dm, with_guard)
@@ -276,12 +317,16 @@ RESPONSES = ["y", "y", "yb", "cu", "co", "yb['yes']", "s[%s]", "prop(succ, tr)",
 def run_shard(i, n, tier, seed, m):
     rng = random.Random(seed * 1000003 + i * 61 + 17)
     ncases = (2000 if tier == "quick" else 30000) // n
+    prev_case = None
     for k in range(ncases):
         case = D.random_case(rng, profile="stateful" if k % 2 else "plain", hostile=(k % 5 == 0), group_p=0.6,
                              min_rows=4, with_refs=(k % 4 == 0))
         case["resp"] = rng.choice(RESPONSES)
         if case["resp"] == "s[%s]":
             case["resp"] = "s['%s']" % "a"
+        if k % 5 == 4 and prev_case is not None:
+            case = {**prev_case, "frame": case["frame"]}  # the same formula text (response included) on other data
+        prev_case = dict(case)
         case["single_level"] = k % 9 == 4
         case["nan_rows"] = "all" if k % 23 == 9 else (k % 7 == 2)
         text = D.formula_text(case)
